@@ -144,7 +144,10 @@ class SymList:
         if isinstance(node, ast.List):
             out = []
             for e in node.elts:
-                out.append(self.line_item(e, "lit"))
+                if isinstance(e, ast.Starred):
+                    out.extend(self.make_items(e.value))      # [a, *FAMILY, b]
+                else:
+                    out.append(self.line_item(e, "lit"))
             return out
         if isinstance(node, ast.ListComp) and len(node.generators) == 1 and not node.generators[0].ifs:
             node = self._fuse(node)
@@ -184,6 +187,33 @@ class SymList:
             lc = ast.ListComp(elt=node.elt, generators=node.generators)
             ast.copy_location(lc, node)
             return self.make_items(lc)
+        if isinstance(node, ast.Call) and not any(k.arg is None for k in node.keywords) and not any(isinstance(a, ast.Starred) for a in node.args):
+            # a helper of the package whose body is `return E`: E with the arguments in place of the parameters
+            from .normalize import _subst
+            try:
+                tg = self.ctx.cg.resolve_callee(self.f, node.func)
+            except Exception:
+                tg = []
+            fn = self.ctx.cg.func(tg[0]) if len(tg) == 1 else None
+            body = [st for st in fn.node.body if not (isinstance(st, ast.Expr) and isinstance(st.value, ast.Constant))] if fn is not None else []
+            a = fn.node.args if fn is not None else None
+            if fn is not None and len(body) == 1 and isinstance(body[0], ast.Return) and body[0].value is not None \
+                    and not a.vararg and not a.kwarg and not a.kwonlyargs and not a.posonlyargs and not a.defaults \
+                    and len(node.args) + len(node.keywords) == len(fn.params) and all(k.arg in fn.params[len(node.args):] for k in node.keywords) \
+                    and not getattr(self, "_inl_depth", 0) > 3:
+                m = dict(zip(fn.params, node.args))
+                m.update({k.arg: k.value for k in node.keywords})
+                # arguments are evaluated once and only read: substitution is exact when they are free of calls with effects
+                if all(not isinstance(x, (ast.Yield, ast.Await, ast.NamedExpr)) for v in m.values() for x in ast.walk(v)):
+                    self._inl_depth = getattr(self, "_inl_depth", 0) + 1
+                    try:
+                        e = _subst(body[0].value, m)
+                        for sub in ast.walk(e):
+                            if not hasattr(sub, "lineno"):
+                                ast.copy_location(sub, node)
+                        return self.make_items(e)
+                    finally:
+                        self._inl_depth -= 1
         raise AnalysisError("unrecognised list expression %s" % ast.unparse(node)[:80])
 
     def _fuse(self, comp):
@@ -427,6 +457,9 @@ class SymList:
             name = st.targets[0].id
             v = st.value
             self.env[name] = v
+            if isinstance(v, ast.Name) and v.id in self.lists:
+                self.lists[name] = list(self.lists[v.id])     # a second name for the list built so far (lists here are only extended, never edited in place)
+                return
             # list?
             if isinstance(v, (ast.List, ast.ListComp)) or (isinstance(v, ast.BinOp) and isinstance(v.op, ast.Add) and self._looks_list(v)):
                 try:
